@@ -90,6 +90,17 @@ func destForms() []destForm {
 			return gen.TCPReply(from, e.local, e.spec.Port, e.lport, 0x51000001, e.isn, wirefmt.TCPAck,
 				append([]byte{1, 1}, wirefmt.OptSack([][2]uint32{{e.isn + uint32(p.TTL), e.isn + uint32(p.TTL) + 1}})...), nil, gen.OuterOpts(1+p.TTL%3))
 		}},
+		// the same proofs of arrival as a physical NIC delivers them: padded by the link layer to the Ethernet minimum (the
+		// capture source strips the 14-byte header, the padding stays behind the datagram)
+		{"echo-reply-padded", func(v refmatch.Variant) bool { return v.Proto == "icmp" && !v.V6 }, func(e *simEnv, p *refmatch.Probe, from netip.Addr) []byte {
+			return padTo46(gen.EchoReply(from, e.local, e.echoID, uint16(p.Seq), []byte{byte(p.TTL)}, nil))
+		}},
+		{"rst-ack-padded", is("syn"), func(e *simEnv, p *refmatch.Probe, from netip.Addr) []byte {
+			return padTo46(gen.TCPReply(from, e.local, e.spec.Port, e.lport, 0, p.Seq+1, wirefmt.TCPRst|wirefmt.TCPAck, nil, nil, nil))
+		}},
+		{"syn-ack-mss-padded", is("syn"), func(e *simEnv, p *refmatch.Probe, from netip.Addr) []byte {
+			return padTo46(gen.TCPReply(from, e.local, e.spec.Port, e.lport, 0x66000000, p.Seq+1, wirefmt.TCPSyn|wirefmt.TCPAck, wirefmt.OptMSS(1460), nil, nil))
+		}},
 		{"rst", is("syn"), func(e *simEnv, p *refmatch.Probe, from netip.Addr) []byte {
 			return gen.TCPReply(from, e.local, e.spec.Port, e.lport, 0, 0, wirefmt.TCPRst, nil, nil, nil)
 		}},
@@ -382,6 +393,13 @@ func runC05RealtimeClockStep(c *fw.Ctx, id string, v refmatch.Variant) {
 			return
 		}
 	}
+}
+
+func padTo46(b []byte) []byte {
+	for len(b) < 46 {
+		b = append(b, 0)
+	}
+	return b
 }
 
 // engineShapeCases: both engines behind the scripted driver (replies for any TTL in any order, destination replies for
